@@ -28,6 +28,8 @@ type c04Model struct {
 	env      *Env
 	s        *Sut
 	chunk    int
+	requestRefused bool // the store refuses the next number-assigning write (armed for one gap opener)
+	abandoned      bool // the run ended with the engine giving the connection up after such a refusal
 	plan     map[int]c04Plan // per number
 	received map[int]bool
 	start    int // first number of the current epoch that counts
@@ -61,6 +63,9 @@ func (m *c04Model) anyMissing(t int) bool {
 	return false
 }
 
+// refusedRequestEndsRun: the store has just refused the write that numbers the engine's ResendRequest. The request
+// cannot go out; the engine may give the connection up (the gap is found again at the next logon) - but it may not
+// sit in recovery for a request it never sent.
 // deliver feeds one peer message to the engine and judges the reaction.
 // covers: the numbers this message makes "received" (one number, or a gap-fill range).
 func (m *c04Model) deliver(label string, frame []byte, seq int, covers []int, o MsgOpt) {
@@ -118,6 +123,14 @@ func (m *c04Model) deliver(label string, frame []byte, seq int, covers []int, o 
 		return m.marker
 	}
 	switch {
+	case !openBefore && seq > Tb && len(covers) > 0 && m.requestRefused && len(rrs) == 0:
+		// the store refused to number the ResendRequest
+		if p.Connected() {
+			env.Violate("C04/gap-request/store-refused", "message %d arrived while expecting %d and the store refused to number the ResendRequest: no request went out, yet the engine keeps the connection (it waits for a replay nobody was asked for); engine wrote %s", seq, Tb, summarize(r))
+		}
+		env.Stat("probe_gap_request_refused_by_store")
+		m.abandoned = true
+		return
 	case !openBefore && seq > Tb && len(covers) > 0:
 		// gap detected in normal operation
 		want := endFor(Tb, seq-1)
@@ -489,7 +502,25 @@ func runC04(env *Env, tier string) {
 		} else {
 			env.Stat("probe_gap_detected_on_admin_message")
 		}
+		if ch.Chance("storerefusesrequest", 1, 12) {
+			// the store refuses the write that would number the ResendRequest (disk full, database gone)
+			fired := false
+			s.E.SF.Fail = func(op string, k int) error {
+				if fired || op == "IncrTarget" {
+					return nil
+				}
+				fired = true
+				env.Stat("fault_store_write_refused")
+				return fmt.Errorf("injected: store refuses %s %d", op, k)
+			}
+			m.requestRefused = true
+		}
 		sendNumber(n, false, fmt.Sprintf("skip %d,", g))
+		s.E.SF.Fail = nil
+		if m.abandoned {
+			return
+		}
+		m.requestRefused = false
 		env.State(fmt.Sprintf("gap=%d chunk=%d", g, c.ChunkSize))
 		recoverNow()
 	}
